@@ -41,18 +41,12 @@ class Terminal(Expr):
     def evaluate(self, x, mapping, component, index_values, derivatives=()):
         """Get *self* from *mapping* and return the component asked for."""
         f = mapping.get(self)
-        # No mapping, trying to evaluate self as a constant
+        # No mapping
         if f is None:
-            try:
-                try:
-                    f = float(self)
-                except TypeError:
-                    f = complex(self)
-                if derivatives:
-                    f = 0.0
-                return f
-            except Exception:
-                pass
+            # NB! Do not try float(self) here: constant-valued terminals
+            # override evaluate(), and for any other terminal
+            # float(self) -> Expr.__float__ -> self(()) -> evaluate()
+            # comes back here and recurses without bound.
             # If it has an ufl_evaluate function, call it
             if hasattr(self, "ufl_evaluate"):
                 return self.ufl_evaluate(x, component, derivatives)
